@@ -10,7 +10,11 @@
    Round 3: the model now has uncompressed ranks, Metrics.getLabel numbering threaded through the
      nest, matched ranks (matchRanks / rank_matches) and the level
      z << x.project(.., rank_id=<z's rank>, tick=True); all theorems above were re-proved for it
-     except the generic C16_header / C16_model_header (see below).
+     (C16_header / C16_model_header in round 4).
+   Round 4: C16_intersect_rows_b, C16_intersect_yields, C16_eager_nest_spec / C16_eager_nest
+     (the nest theorem now covers `&` levels).  Still open: the instantiation of C16_level_spec
+     for populate levels (`<<`, incl. the projection pattern), intersect_<l> addressing inside
+     the nest theorem (proved at generator level only), and the glue to c16_holds.
    NOT proved (checked by the oracle c16_holds on the implementation's files and, as verdict
    bit 4, on the model's files for every generated case): the hypotheses of C16_level_spec for
    `&` levels (yielded elements = lookup intersection, locality of its events) and for `<<`
@@ -19,7 +23,8 @@
 From Coq Require Import ZArith List Bool.
 From FT Require Import Model.Base Model.Obs Model.C16Metrics Model.C16Nest Model.C16Check
                        Proofs.C16MetricsP Proofs.C16CheckP Proofs.C16AndP
-                       Proofs.C16CoreP Proofs.C16RefP Proofs.C16NestP Proofs.C16PlainP.
+                       Proofs.C16CoreP Proofs.C16RefP Proofs.C16NestP Proofs.C16PlainP
+                       Proofs.C16AndLevelP Proofs.C16EagerP.
 Import ListNotations.
 Open Scope Z_scope.
 
@@ -42,9 +47,31 @@ Theorem C16_consumable : forall n keys evs k t,
 Proof. exact mem_is_file. Qed.
 Print Assumptions C16_consumable.
 
-(* (C16_header, the generic header-first theorem of round 1, has to be re-proved for the
-   state machine with matched ranks of round 3; for nests of eager levels the header is part of
-   C16_plain_nest below, and the oracle checks it on every file.) *)
+(* A file is empty (its rank is neither a loop rank nor matched to one) or starts with the header
+   naming a prefix of the loop ranks: [x_pos | x in loop_order[:i+1]] ++ loop_order[:i+1] ++
+   [fiber_pos] - for every event sequence, including matched ranks. *)
+Theorem C16_header : forall n keys f m evs k t,
+  let st := exec n (init_state keys f m) evs in
+  In (k, t) (m_tr st) -> t_file t = true ->
+  (unknown st (key_rank k) -> file_content t = [])
+  /\ ((~ unknown st (key_rank k)) -> exists i rows,
+        (i < length (m_lo st))%nat /\ file_content t = header (m_lo st) i :: rows).
+Proof. exact header_first. Qed.
+Print Assumptions C16_header.
+
+Example C16_header_nonvacuous :
+  let st := exec 2 (init_state [(0, 0, 0)] true false) [EReg 0; EUse 0 5 0 0 0; EInc 0; EEnd 0] in
+  map (fun kt => file_content (snd kt)) (m_tr st) = [[[100; 0; -1]; [0; 5; 0]]].
+Proof. vm_compute. reflexivity. Qed.
+
+Theorem C16_model_header : forall c n m k t,
+  let st := exec n (init_state (k_keys c) true m) (fst (c16_events c)) in
+  In (k, t) (m_tr st) ->
+  (unknown st (key_rank k) -> file_content t = [])
+  /\ ((~ unknown st (key_rank k)) -> exists i rows,
+        (i < length (m_lo st))%nat /\ file_content t = header (m_lo st) i :: rows).
+Proof. exact model_header. Qed.
+Print Assumptions C16_model_header.
 
 (* The faithful nest model meets the flush and consumable clauses of the oracle for every case:
    all thresholds give the same files B, the file+consumable run gives B again and consumeTrace
@@ -97,12 +124,12 @@ Print Assumptions C16_trace_is_emits.
    and addressed ([loc_ok]).  The invariant used: incIter only raises the innermost component in
    use, endIter resets it after its last row, bodies restore the vector (outer components
    constant during an inner traversal). *)
-Theorem C16_level_spec : forall n i L lv' pt e items fin, length pt = i ->
-  Forall (item_ok n i lv' pt) items -> Forall (local i) fin ->
+Theorem C16_level_spec : forall tr n i L lv' pt e items fin, length pt = i ->
+  Forall (item_ok tr n i lv' pt) items -> Forall (local i) fin ->
   children pt items = kids L (pt, e) ->
   lsafe (0, None) (skels i items ++ fin) = true ->
-  loc_ok L pt e (skels i items ++ fin) ->
-  spec n i (L :: lv') pt e
+  loc_ok tr i L pt e (skels i items ++ fin) ->
+  spec tr n i (L :: lv') pt e
        ([EReg (Z.of_nat i)] ++ flat_items (Z.of_nat i) items ++ fin ++ [EEnd (Z.of_nat i)]).
 Proof. exact GL. Qed.
 Print Assumptions C16_level_spec.
@@ -110,8 +137,8 @@ Print Assumptions C16_level_spec.
 (* C16_plain_nest_spec: every nest of `for c, p in <eager fiber>` levels - any depth, any operand
    trees (explicit defaults and empty sub-fibers included), any traces - meets [spec]. *)
 Theorem C16_plain_nest_spec : forall n tr zshape nz m lv, forallb plain_level lv = true ->
-  forall i pt e z, length pt = i -> noall z ->
-  spec n i lv pt e (fst (run tr zshape nz m lv i pt e z)).
+  forall i pt e z, length pt = i -> labinv i z ->
+  spec tr n i lv pt e (fst (run tr zshape nz m lv i pt e z)).
 Proof. exact plain_nest_spec. Qed.
 Print Assumptions C16_plain_nest_spec.
 
@@ -125,7 +152,7 @@ Theorem C16_plain_nest : forall n tr zshape nz m lv keys m0 e z,
   let d := dr lv [([], e)] in
   m_lo st' = iota d
   /\ forall kk, In kk keys -> exists data,
-       content st' kk = Some (hdrs kk 0 d ++ data) /\ rows_ok 0 [] lv [] e kk data.
+       content st' kk = Some (hdrs kk 0 d ++ data) /\ rows_ok tr 0 [] lv [] e kk data.
 Proof. exact plain_nest_top. Qed.
 Print Assumptions C16_plain_nest.
 
@@ -133,6 +160,53 @@ Example C16_plain_nest_nonvacuous :
   forallb plain_level [ {| l_pop := false; l_src := SFib 0; l_ufmt := false; l_zufmt := false; l_proj := None; l_shape := 4 |}; {| l_pop := false; l_src := SFib 0; l_ufmt := false; l_zufmt := false; l_proj := None; l_shape := 4 |} ] = true
   /\ dr [ {| l_pop := false; l_src := SFib 0; l_ufmt := false; l_zufmt := false; l_proj := None; l_shape := 4 |}; {| l_pop := false; l_src := SFib 0; l_ufmt := false; l_zufmt := false; l_proj := None; l_shape := 4 |} ]
         [([], [Node [(1, Node [(0, Leaf 0); (2, Leaf 5)])]])] = 2%nat.
+Proof. vm_compute. auto. Qed.
+
+(* Round 4.  C16_intersect_rows_b: the rows of the second operand of `&` (tail row included). *)
+Theorem C16_intersect_rows_b : forall r la lb ta, la <> lb ->
+  forall xs, ssorted_f xs -> forall ys, ssorted_f ys -> forall apos bpos pre,
+  uses lb (all_events (and_go r la lb ta true xs ys apos bpos pre))
+  = uses lb pre ++ rows_of bpos (touched (last_coord xs) ys).
+Proof. exact and_go_b_rows. Qed.
+Print Assumptions C16_intersect_rows_b.
+
+(* The elements `&` yields are exactly the lookup intersection of its (strictly sorted) operands. *)
+Theorem C16_intersect_yields : forall r la lb ta tb xs, ssorted_f xs -> forall ys, ssorted_f ys ->
+  forall apos bpos pre,
+  map snd (fst (and_go r la lb ta tb xs ys apos bpos pre)) = isect xs ys.
+Proof. exact and_go_yields. Qed.
+Print Assumptions C16_intersect_yields.
+
+(* C16_eager_nest_spec / C16_eager_nest: every nest WITHOUT populate levels - eager `for` over a
+   compressed fiber and `for .. in x & y` over compressed or uncompressed operands, any depth,
+   strictly sorted operand trees (explicit defaults and empty sub-fibers included) - meets
+   [spec]: counter vector restored, loop_order = 0..d-1, stamps ordered in every trace (strictly
+   for iter), and iter rows = the reference iteration space (lookup intersection for `&`) with
+   stream / storage positions.  The label state is the one Metrics keeps ([labinv]: no matches,
+   counters of inner ranks reset), so the dynamic labels of `&` are 0 and 1. *)
+Theorem C16_eager_nest_spec : forall n tr zshape nz m lv, forallb eager_level lv = true ->
+  forall i pt e z, length pt = i -> labinv i z -> env_ok e ->
+  spec tr n i lv pt e (fst (run tr zshape nz m lv i pt e z)).
+Proof. exact eager_nest_spec. Qed.
+Print Assumptions C16_eager_nest_spec.
+
+Theorem C16_eager_nest : forall n tr zshape nz m lv keys m0 e z,
+  forallb eager_level lv = true -> env_ok e ->
+  let evs := fst (run tr zshape nz m lv 0 [] e {| th_z := z; th_lab := lab0 |}) in
+  let st' := exec n (init_state keys true m0) evs in
+  let d := dr lv [([], e)] in
+  m_lo st' = iota d
+  /\ forall kk, In kk keys -> exists data,
+       content st' kk = Some (hdrs kk 0 d ++ data) /\ rows_ok tr 0 [] lv [] e kk data.
+Proof. exact eager_nest_top. Qed.
+Print Assumptions C16_eager_nest.
+
+Example C16_eager_nest_nonvacuous :
+  let L1 := {| l_pop := false; l_src := SAnd 0 1; l_ufmt := false; l_zufmt := false; l_proj := None; l_shape := 4 |} in
+  let L2 := {| l_pop := false; l_src := SAnd 1 0; l_ufmt := true; l_zufmt := false; l_proj := None; l_shape := 3 |} in
+  let e := [Node [(0, Node [(0, Leaf 1)]); (2, Node [(1, Leaf 2)])];
+            Node [(0, Node [(0, Leaf 3)]); (2, Node [(1, Leaf 4); (2, Leaf 0)])]] in
+  forallb eager_level [L1; L2] = true /\ forallb sorted_t e = true /\ dr [L1; L2] [([], e)] = 2%nat.
 Proof. vm_compute. auto. Qed.
 
 (* C16_model_meets_spec, full statement (NOT proved):
